@@ -163,3 +163,31 @@ Proof.
   - apply IH. lia.
   - constructor; [exact Hc|]. apply IH. apply Z.mod_pos_bound. lia.
 Qed.
+
+(* one sleep per failed list call *)
+Lemma sleeps_from_count outs : forall c,
+  Z.of_nat (length (sleeps_from c outs)) = failures outs.
+Proof.
+  induction outs as [|o outs IH]; intros c; [reflexivity|].
+  destruct o; cbn [sleeps_from failures length].
+  - apply IH.
+  - rewrite Nat2Z.inj_succ, IH. lia.
+Qed.
+
+(* a per-sleep lower bound  a <= b * d n k + c  sums up over the whole run *)
+Lemma total_wait_lower (d : Z -> Z -> Z) (a b c : Z) :
+  (forall n k, 0 <= n < 2^64 -> 0 <= k < 2^53 -> a <= b * d n k + c) ->
+  forall ns ks,
+  Forall (fun n => 0 <= n < 2^64) ns -> Forall (fun k => 0 <= k < 2^53) ks ->
+  length ks = length ns ->
+  a * Z.of_nat (length ns) <= b * total_wait d ns ks + c * Z.of_nat (length ns).
+Proof.
+  intros Hd ns. induction ns as [|n ns IH]; intros ks Hn Hk Hl.
+  - destruct ks; cbn [total_wait length]; lia.
+  - destruct ks as [|k ks]; [discriminate Hl|].
+    inversion Hn as [|? ? Hn1 Hn2]; subst. inversion Hk as [|? ? Hk1 Hk2]; subst.
+    cbn [length] in Hl. injection Hl as Hl.
+    pose proof (IH ks Hn2 Hk2 Hl) as IH1.
+    pose proof (Hd n k Hn1 Hk1) as H1.
+    cbn [total_wait length]. rewrite Nat2Z.inj_succ. lia.
+Qed.
